@@ -96,10 +96,18 @@ def decide(prop_id, tier, seed, registry=None, keep_out=False):
                 continue
             if Q.get("sweep_skip"):
                 continue
-            base_run = dict((Q["runs"].get("quick") or [{}])[0])
-            args = dict(base_run.get("args", {}))
-            args.update(Q.get("sweep_args", {}).get(tier, Q.get("sweep_args", {}).get("quick", {})) if isinstance(Q.get("sweep_args", {}).get("quick"), dict) else Q.get("sweep_args", {}))
+            qruns = Q["runs"].get("quick") or [{}]
             for cfg in sweep["configs"][tier] if isinstance(sweep["configs"], dict) else sweep["configs"]:
+                # budget: the property's own run under this sanitizer if it has one (its counts are
+                # tuned for that build), else any sanitizer run, else its first run; explicit
+                # sweep_args override
+                fam = "tsan" if cfg == "tsan" else "asan"
+                base_run = next((r for r in qruns if r.get("config") == cfg), None) or \
+                    next((r for r in qruns if r.get("config", "").startswith(fam)), None) or \
+                    next((r for r in qruns if r.get("config") in ("tsan", "asan", "asan-nosba")), None) or qruns[0]
+                args = dict(base_run.get("args", {}))
+                sa = Q.get("sweep_args", {})
+                args.update(sa.get(tier, sa.get("quick", {})) if isinstance(sa.get("quick"), dict) else sa)
                 plan.append((Q["engine"], q, {"config": cfg, "shards": sweep.get("shards", 4), "seeds": sweep.get("seeds", {}).get(tier, 1),
                                               "args": args, "lite": True, "timeout": sweep.get("timeout", 1800)}))
     else:
